@@ -298,6 +298,7 @@ def main():
     ap.add_argument("--tier", default=os.environ.get("VERIF_TIER", "quick"), choices=["quick", "thorough"])
     ap.add_argument("--replay")
     ap.add_argument("--only", help="restrict to runs whose filters contain this substring (debug)")
+    ap.add_argument("--harness", help="debug: run only these harness name prefixes (comma separated) in every run of the property; evidence is NOT representative")
     a = ap.parse_args()
     a.only = a.only or os.environ.get("VERIF_ONLY")  # debugging / seeded-change evaluation of one run of a tier
     prop = a.prop.upper()
@@ -325,6 +326,8 @@ def main():
     for idx, run in enumerate(cfgp["runs"]):
         if a.only and not any(a.only in f for f in run["filters"][a.tier]):
             continue
+        if a.harness:
+            run = dict(run, filters={a.tier: a.harness.split(",")})
         res, meta = run_kani(prop, run, a.tier, idx, workdir)
         metas.append(meta)
         if meta.get("skipped"):
